@@ -35,6 +35,7 @@ type PropConfig struct {
 	MinObl          int            `json:"min_obligations"`
 	QuickMs         int            `json:"quick_timeout_ms"`
 	InferClosurePre bool           `json:"infer_closure_pre"`
+	InferLoopInv    bool           `json:"infer_loop_inv"`
 }
 
 type ReplayDriver struct {
@@ -177,11 +178,37 @@ func runCheck(args []string) int {
 	}
 	for _, f := range sweepFns {
 		n := funcFullName(f)
-		if done[n] || skip[n] {
+		if done[n] || skip[n] || genericBody(f) {
 			continue
 		}
 		done[n] = true
 		works = append(works, work{f, n, true})
+	}
+	if e.inferClosures {
+		// a closure's inferred preconditions are proved in its enclosing function: bring the
+		// enclosing functions under (sweep) verification too
+		for i := 0; i < len(works); i++ {
+			if p := works[i].fn.Parent(); p != nil {
+				n := funcFullName(p)
+				if !done[n] && !genericBody(p) {
+					done[n] = true
+					works = append(works, work{p, n, true})
+				}
+			}
+		}
+	}
+	only := os.Getenv("VERIF_ONLY") // development aid: restrict the work list (evidence is not written)
+	if only != "" {
+		var kept []work
+		for _, w := range works {
+			for _, o := range strings.Split(only, ",") {
+				if strings.Contains(w.name, o) {
+					kept = append(kept, w)
+					break
+				}
+			}
+		}
+		works = kept
 	}
 	depthOf := func(f *ssa.Function) int {
 		d := 0
@@ -199,7 +226,20 @@ func runCheck(args []string) int {
 	if !e.inferClosures {
 		maxDepth = -1
 	}
+	e.inferLoops = cfg.InferLoopInv
 	for d := 0; d <= maxDepth || d == 0; d++ {
+		if e.inferLoops {
+			var fns []*ssa.Function
+			sw := map[*ssa.Function]bool{}
+			for _, w := range works {
+				if maxDepth >= 0 && depthOf(w.fn) != d {
+					continue
+				}
+				fns = append(fns, w.fn)
+				sw[w.fn] = w.sweep
+			}
+			e.inferLoopInvariants(fns, sw, func() { e.discharge(outDir, timeout, false, runtime.NumCPU()) })
+		}
 		for _, w := range works {
 			if maxDepth >= 0 && depthOf(w.fn) != d {
 				continue
@@ -207,6 +247,7 @@ func runCheck(args []string) int {
 			if err := e.verifyFunction(w.fn, w.sweep); err != nil && !w.sweep {
 				drift = append(drift, w.name+": "+err.Error())
 			}
+			e.checkPooledInit(w.fn)
 		}
 		if maxDepth >= 0 && d < maxDepth {
 			e.discharge(outDir, timeout, all, runtime.NumCPU())
@@ -221,6 +262,7 @@ func runCheck(args []string) int {
 	for _, p := range cfg.PrivatePkgs {
 		e.checkPrivate(p)
 	}
+	e.checkGlobalInvMapsReadOnly()
 	e.proveIndLemmas()
 	e.discharge(outDir, timeout, all, runtime.NumCPU())
 
@@ -454,7 +496,7 @@ func runCheck(args []string) int {
 		"floats_as_reals":         true,
 		"vacuity_canaries_proved": vacuous,
 	}
-	if e.inferClosures {
+	if e.inferClosures || e.inferLoops {
 		var iu []string
 		for k := range e.inferredUsed {
 			iu = append(iu, k)
@@ -479,7 +521,18 @@ func runCheck(args []string) int {
 	}
 	os.MkdirAll(filepath.Join(verifDir(), "evidence"), 0o755)
 	buf, _ := json.MarshalIndent(ev, "", " ")
-	os.WriteFile(filepath.Join(verifDir(), "evidence", id+".json"), buf, 0o644)
+	if only == "" {
+		os.WriteFile(filepath.Join(verifDir(), "evidence", id+".json"), buf, 0o644)
+	} else {
+		for _, name := range e.oblOrder {
+			if ob := e.obls[name]; ob.Class == "infer" {
+				fmt.Printf("  infer %-8s %s\n", ob.status(), name)
+			}
+		}
+		for _, ob := range failed {
+			fmt.Printf("  FAILED %s (%s)\n", ob.Name, ob.status())
+		}
+	}
 
 	for _, l := range lines {
 		fmt.Println(l)
